@@ -31,6 +31,11 @@ CHECKS = {
             "Every component that writes up to 3/4 chunks of sizes {1,100,5000} and then fails or succeeds (directly or nested under templ.Join) x status {unset,200,201,404} x 3 content types x 5 error-handler shapes (unset, status+body, body only, nothing, own content type) x buffered/streamed, each followed by three further renders over the shared buffer pool. A recording ResponseWriter captures committed status, headers at commit time, number of WriteHeader calls and body. Buffered oracle: success = exact status/content type/full document; failure = no document byte, default 500 message or exactly what the error handler alone writes, handler receives the cause.",
             "Streaming configurations are recorded for contrast only. An error handler that writes a body without a status chooses its own implicit 200.",
             "4.11", "enum"),
+    "C19": ("model_checking",
+            "stateless schedule exploration (hand-rolled cooperative scheduler + DFS with iterative preemption bounding and state caching) of the real, overlay-rewritten SSE handler",
+            "The sse package is rewritten at check time from /repo's current sources (chan/select/go/close/map-range/sync/time onto vsched primitives, by AST, under go build -overlay) so that every mutex, channel, select, spawn, timer and map-iteration decision is an explorer choice. Scenarios: 2 clients x 1 or 2 back-to-back broadcasts x concurrent disconnect, a ping falling due, a stalled reader, a late joiner (thorough: 3 clients, 2 disconnects, combinations). Every schedule with at most 2 (quick) / 3 (thorough) preemptions / non-default environment answers is executed; states already expanded with at least the same remaining budget are not re-expanded (state key = threads' control points + shim objects + writer contents; reduction self-checked against uncached exploration). Oracle: no panic, no deadlock, Send returns without waiting for any client, every client connected during a broadcast and staying receives every reload, handlers return after cancellation.",
+            "Atomic steps are the code between two synchronisation operations (data races are outside this check); context cancellation is polled; leaked blocked goroutines are not violations; state-key completeness is an assumption validated differentially on the smallest scenario.",
+            "4.19", "vsched"),
     "C20": ("exploration",
             "exhaustive configuration x document enumeration through the real proxy handler over loopback",
             "960 configurations (Content-Encoding identity/gzip/br/unsupported x 5 content types x 6 CSP shapes x plain/HX-Request x skip marker x client Accept-Encoding) x 6 representative documents, plus every document of a small well-formed-HTML grammar (4 shells x every body of up to 2/3 of 14 fragments incl. existing scripts containing </body>, comments, RCDATA, tables, SVG, entities, non-ASCII) and 4 KB / 1 MB (/4 MB) fillers x 16 core configurations, through proxy.New(...).ServeHTTP with an httptest backend. Modified case: the body decodes with the response's Content-Encoding, re-parses to a DOM equal to parse(original) plus exactly one reload script as last child of the first body carrying the first script-src nonce; Content-Length equals bytes sent. Pass-through case: body, Content-Encoding and Content-Type byte-identical.",
